@@ -2,12 +2,14 @@ package sim
 
 import (
 	"encoding/base64"
+	"regexp"
 	"fmt"
 	"math/big"
 	"runtime/debug"
 	"strings"
 	"time"
 
+	didparser "github.com/SaoNetwork/sao-did/parser"
 	didkeeper "github.com/SaoNetwork/sao/x/did/keeper"
 	didtypes "github.com/SaoNetwork/sao/x/did/types"
 	modelmodule "github.com/SaoNetwork/sao/x/model"
@@ -63,6 +65,15 @@ type Op struct {
 	Did        int    `json:"did,omitempty"`
 	AccountId  string `json:"accountId,omitempty"`
 	Note       string `json:"note,omitempty"`
+	Sid        int    `json:"sid,omitempty"`        // sid identity index+1 (keys derived from it)
+	Acct       int    `json:"acct,omitempty"`       // account (index+1) being bound
+	TsOffset   int64  `json:"tsOffset,omitempty"`   // proof/update timestamp = now - TsOffset seconds
+	KeyVer     int    `json:"keyVer,omitempty"`     // key document version of the sid identity
+	Remove     []int  `json:"remove,omitempty"`     // accounts (index+1) whose accountDid is removed
+	Update     []int  `json:"update,omitempty"`     // accounts (index+1) whose auth is updated
+	PastSeed   string `json:"pastSeed,omitempty"`
+	SleepMs    int    `json:"sleepMs,omitempty"`    // wall-clock delay before executing (replica offset)
+	Eth        bool   `json:"eth,omitempty"`
 }
 
 type FaultIn struct {
@@ -178,6 +189,68 @@ func firstLines(s string, n int) string {
 	}
 	return strings.Join(l, "\n")
 }
+
+// runTxPre evaluates `pre` (harness-side facts that depend on the moment of execution) right
+// before running the transaction.
+func (w *World) runTxPre(pre func(), f func(ctx sdk.Context) (M, error)) Result {
+	pre()
+	return w.runTx(f)
+}
+
+// Clock is the clock the did handlers are expected to read (block time after the fix; the
+// harness sets the block time to the wall clock at genesis and advances it with the height).
+func (w *World) Clock() time.Time {
+	if UseWallClock {
+		return time.Now()
+	}
+	return w.C.BlockTime()
+}
+
+// UseWallClock selects which clock the harness treats as the handlers' reference.
+var UseWallClock = false
+
+var accIdRe = regexp.MustCompile("^[-a-z0-9]{3,8}:[-_a-zA-Z0-9]{1,32}:[-.%a-zA-Z0-9]{1,64}$")
+
+func (w *World) accJSON(accId string) M {
+	ok := accIdRe.MatchString(accId)
+	c := strings.Split(accId, ":")
+	for len(c) < 3 {
+		c = append(c, "")
+	}
+	return M{"raw": bs(accId), "ok": ok, "cosmos": c[0] == "cosmos", "chainOk": c[1] == ChainID, "eip155": c[0] == "eip155", "addr": w.Addr.ID(c[2])}
+}
+
+func keysStr(keys []*didtypes.PubKey) string {
+	ks := []string{}
+	for _, pk := range keys {
+		ks = append(ks, pk.Name+"="+pk.Value)
+	}
+	return strings.Join(ks, ",")
+}
+
+// SidKeys are the (fake) public keys of sid identity `sid` at key-document version `ver`.
+func (w *World) SidKeys(sid, ver int) []*didtypes.PubKey {
+	return []*didtypes.PubKey{{Name: "Authentication", Value: fmt.Sprintf("auth-%d-v%d", sid, ver)}, {Name: "KeyAgreement", Value: fmt.Sprintf("agree-%d-v%d", sid, ver)}}
+}
+
+// SidTimestamp is the creation timestamp committed to by the root document id of identity `sid`.
+func (w *World) SidTimestamp(sid int) uint64 {
+	if w.sidTs == nil {
+		w.sidTs = map[int]uint64{}
+	}
+	if t, ok := w.sidTs[sid]; ok {
+		return t
+	}
+	t := uint64(w.Clock().Unix()) - 5
+	w.sidTs[sid] = t
+	return t
+}
+
+func (w *World) SidRoot(sid int) string {
+	r, _ := didkeeper.CalculateDocId(w.SidKeys(sid, 1), w.SidTimestamp(sid))
+	return r
+}
+func (w *World) SidDid(sid, _ int) string { return "did:sid:" + w.SidRoot(sid) }
 
 // runBlocker runs a begin/end blocker with no recover in the application sense: a panic is the
 // observation "halt-panic" (baseapp does not recover them), and a watchdog reports "halt-hang".
@@ -299,24 +372,152 @@ func (w *World) Exec(op *Op) (Result, M) {
 		}), out
 	case "payaddr":
 		did := w.didOf1(op.Did)
+		if op.Sid != 0 {
+			did = w.SidDid(op.Sid, 1)
+		}
 		if op.OwnerRaw != "" {
 			did = op.OwnerRaw
 		}
 		accId := op.AccountId
 		if accId == "" {
-			accId = "cosmos:" + ChainID + ":" + creator
+			a := creator
+			if op.Acct != 0 {
+				a = w.acct1(op.Acct)
+			}
+			accId = "cosmos:" + ChainID + ":" + a
 		}
+		_, perr := didparser.Parse(did)
 		out["did"] = w.DidID(did)
-		out["accountId"] = accId
-		c := strings.Split(accId, ":")
-		for len(c) < 3 {
-			c = append(c, "")
-		}
-		out["accCosmos"] = c[0] == "cosmos"
-		out["accChainOk"] = c[1] == ChainID
-		out["accAddr"] = w.Addr.ID(c[2])
+		out["didOk"] = perr == nil
+		out["acc"] = w.accJSON(accId)
 		return w.runTx(func(ctx sdk.Context) (M, error) {
 			_, err := didSrv.UpdatePaymentAddress(sdk.WrapSDKContext(ctx), &didtypes.MsgUpdatePaymentAddress{Creator: creator, AccountId: accId, Did: did})
+			return nil, err
+		}), out
+	case "binding":
+		// bind account `Acct` to the sid identity `Sid` (created on first binding)
+		keys := w.SidKeys(op.Sid, 1)
+		ts := w.SidTimestamp(op.Sid)
+		rootDocId, _ := didkeeper.CalculateDocId(keys, ts)
+		did := "did:sid:" + rootDocId
+		if _, exists := app.DidKeeper.GetSidDocumentVersion(w.C.Ctx(), rootDocId); exists {
+			// joining an existing identity: the proof carries its own (fresh) timestamp
+			ts = uint64(w.Clock().Unix()) - 5
+		}
+		acct := w.C.Accounts[(op.Acct-1+len(w.C.Accounts))%len(w.C.Accounts)]
+		accId := "cosmos:" + ChainID + ":" + acct.Addr.String()
+		if op.AccountId != "" {
+			accId = op.AccountId
+		}
+		now := uint64(w.Clock().Unix())
+		proofTs := ts
+		message := fmt.Sprintf("I accept binding my account to %s at %d", did, proofTs)
+		signBytes := didkeeper.GetSignData(acct.Addr.String(), message)
+		sigBz, _ := acct.Priv.Sign(signBytes)
+		signature := "tendermint/PubKeySecp256k1." + base64.StdEncoding.EncodeToString(acct.Priv.PubKey().Bytes()) + "." + base64.StdEncoding.EncodeToString(sigBz)
+		proofOk := op.AccountId == ""
+		proofDid := did
+		rootSent := rootDocId
+		keysSent := keys
+		switch op.Tamper {
+		case "sig":
+			other := w.C.Accounts[(op.Acct)%len(w.C.Accounts)]
+			sigBz, _ = other.Priv.Sign(signBytes)
+			signature = "tendermint/PubKeySecp256k1." + base64.StdEncoding.EncodeToString(acct.Priv.PubKey().Bytes()) + "." + base64.StdEncoding.EncodeToString(sigBz)
+			proofOk = false
+		case "otherdid":
+			// a proof whose signed message names a *different* DID; the handler never inspects the message
+			message = "I accept binding my account to did:sid:somebodyelse"
+			signBytes = didkeeper.GetSignData(acct.Addr.String(), message)
+			sigBz, _ = acct.Priv.Sign(signBytes)
+			signature = "tendermint/PubKeySecp256k1." + base64.StdEncoding.EncodeToString(acct.Priv.PubKey().Bytes()) + "." + base64.StdEncoding.EncodeToString(sigBz)
+		case "keys":
+			keysSent = w.SidKeys(op.Sid, 7)
+		case "root":
+			rootSent = rootDocId[:len(rootDocId)-1] + "0"
+		}
+		if op.TsOffset != 0 {
+			// the document id commits to the timestamp, so an old proof is an old identity: use the offset as identity age
+			ts = uint64(int64(now) - op.TsOffset)
+			rootDocId, _ = didkeeper.CalculateDocId(keys, ts)
+			did = "did:sid:" + rootDocId
+			proofDid, rootSent = did, rootDocId
+			message = fmt.Sprintf("I accept binding my account to %s at %d", did, ts)
+			signBytes = didkeeper.GetSignData(acct.Addr.String(), message)
+			sigBz, _ = acct.Priv.Sign(signBytes)
+			signature = "tendermint/PubKeySecp256k1." + base64.StdEncoding.EncodeToString(acct.Priv.PubKey().Bytes()) + "." + base64.StdEncoding.EncodeToString(sigBz)
+		}
+		accountDid := fmt.Sprintf("did:key:acct%d-of-%s", op.Acct, rootDocId[:8])
+		auth := didtypes.AccountAuth{AccountDid: accountDid, AccountEncryptedSeed: "seed", SidEncryptedAccount: "enc"}
+		calc, _ := didkeeper.CalculateDocId(keysSent, ts)
+		msg := &didtypes.MsgBinding{Creator: creator, AccountId: accId, RootDocId: rootSent, Keys: keysSent, AccountAuth: &auth,
+			Proof: &didtypes.BindingProof{Message: message, Signature: signature, Did: proofDid, Timestamp: ts}}
+		out["acc"] = w.accJSON(accId)
+		out["rootDocId"] = bs(rootSent)
+		out["did"] = w.DidID(proofDid)
+		out["didMatchesRoot"] = "did:sid:"+rootSent == proofDid
+		out["accountDid"] = bs(accountDid)
+		out["auth"] = w.Str.ID(auth.AccountEncryptedSeed + "|" + auth.SidEncryptedAccount)
+		out["proofOk"] = proofOk
+		out["proofNamesDid"] = strings.Contains(message, proofDid)
+		out["docIdOk"] = calc == rootSent
+		out["keys"] = w.Str.ID(keysStr(keysSent))
+		if op.SleepMs > 0 {
+			// the same signed message delivered to a replica that executes the block a little later
+			time.Sleep(time.Duration(op.SleepMs) * time.Millisecond)
+		}
+		return w.runTxPre(func() { out["fresh"] = ts+didkeeper.EXPIRE_DURATION >= uint64(w.Clock().Unix()) }, func(ctx sdk.Context) (M, error) {
+			_, err := didSrv.Binding(sdk.WrapSDKContext(ctx), msg)
+			return nil, err
+		}), out
+	case "didupdate":
+		did := w.SidDid(op.Sid, 1)
+		parsed, perr := didparser.Parse(did)
+		rootId := ""
+		if perr == nil {
+			rootId = parsed.ID
+		}
+		now := uint64(w.Clock().Unix())
+		ts := uint64(int64(now) - op.TsOffset)
+		keys := w.SidKeys(op.Sid, op.KeyVer)
+		newDocId, _ := didkeeper.CalculateDocId(keys, ts)
+		sent := newDocId
+		if op.Tamper == "docid" {
+			sent = newDocId[:len(newDocId)-1] + "0"
+		}
+		root := w.SidRoot(op.Sid)
+		upd := []*didtypes.AccountAuth{}
+		updOut := [][]interface{}{}
+		for _, a := range op.Update {
+			ad := fmt.Sprintf("did:key:acct%d-of-%s", a, root[:8])
+			upd = append(upd, &didtypes.AccountAuth{AccountDid: ad, AccountEncryptedSeed: fmt.Sprintf("seed-v%d", op.KeyVer), SidEncryptedAccount: "enc"})
+			updOut = append(updOut, []interface{}{bs(ad), w.Str.ID(fmt.Sprintf("seed-v%d", op.KeyVer) + "|enc")})
+		}
+		rem := []string{}
+		remAcc := []M{}
+		{
+			ctx := w.C.Ctx()
+			for _, a := range op.Remove {
+				ad := fmt.Sprintf("did:key:acct%d-of-%s", a, root[:8])
+				rem = append(rem, ad)
+				if x, found := app.DidKeeper.GetAccountId(ctx, ad); found {
+					remAcc = append(remAcc, w.accJSON(x.AccountId))
+				}
+			}
+		}
+		msg := &didtypes.MsgUpdate{Creator: creator, Did: did, NewDocId: sent, Keys: keys, Timestamp: ts, UpdateAccountAuth: upd, RemoveAccountDid: rem, PastSeed: op.PastSeed}
+		out["did"] = w.DidID(did)
+		out["didOk"] = perr == nil
+		out["rootDocId"] = bs(rootId)
+		out["newDocId"] = bs(sent)
+		out["docIdOk"] = sent == newDocId
+		out["keys"] = w.Str.ID(keysStr(keys))
+		out["update"] = updOut
+		out["remove"] = bsl(rem)
+		out["pastSeed"] = bs(op.PastSeed)
+		out["removeAcc"] = remAcc
+		return w.runTxPre(func() { out["fresh"] = ts+didkeeper.EXPIRE_DURATION >= uint64(w.Clock().Unix()) }, func(ctx sdk.Context) (M, error) {
+			_, err := didSrv.Update(sdk.WrapSDKContext(ctx), msg)
 			return nil, err
 		}), out
 	case "store":
